@@ -67,13 +67,15 @@ def gen_run(rng, durs, live: bool):
     prefix = [0]
     for d in durs:
         prefix.append(prefix[-1] + d)
-    for _ in range(m):
+    crosses = False
+    for i in range(m):
         run.append((loop * total + prefix[j], durs[j]))
         j += 1
         if j == n:
             j = 0
             loop += 1
-    return run
+            crosses = crosses or i < m - 1
+    return run, crosses
 
 
 def gen_sched(rng, event: str, rep_ts: int, run, big: bool):
@@ -178,7 +180,7 @@ def gen_case(rng, big: bool):
     event = "ping" if rng.random() < .65 else "scte35"
     live = rng.random() < .5
     rep_ts, durs = gen_layout(rng)
-    run = gen_run(rng, durs, live)
+    run, crosses = gen_run(rng, durs, live)
     sched = gen_sched(rng, event, rep_ts, run, big)
     r = rng.random()
     if r < .02:
@@ -186,7 +188,7 @@ def gen_case(rng, big: bool):
     elif r < .05:
         sched["interval"] = rng.choice([0, 0, -1, -7])     # ValueError since fix a993bc6
     return {"event": event, "mode": "live" if live else "vod", "sched": sched,
-            "rep_timescale": rep_ts, "run": [list(x) for x in run]}
+            "rep_timescale": rep_ts, "run": [list(x) for x in run], "crosses_loop": crosses}
 
 
 # ------------------------------------------------------------------ real code
